@@ -517,11 +517,13 @@ class JunctionCompartment(Compartment):
         total_outflow = sum(outflow_fractions)
 
         # Finally, assign the inflow to the outflow proportionately accounting for the total outflow downscaling
+        # If nobody entered the junction, nobody leaves it - even if all of the outflow proportions are zero (otherwise 0*0/0 would put NaN in the outflows)
+        empty = not np.any(net_inflow)
         for frac, link in zip(outflow_fractions, self.outlinks):
             if self.duration_group:
-                link._vals[:, ti] = net_inflow * frac / total_outflow
+                link._vals[:, ti] = 0.0 if empty else net_inflow * frac / total_outflow
             else:
-                link.vals[ti] = net_inflow * frac / total_outflow
+                link.vals[ti] = 0.0 if empty else net_inflow * frac / total_outflow
 
     def initial_flush(self) -> None:
         """
